@@ -53,10 +53,10 @@ SPEC = {
  "C03": ([("OxiddModel.Bdd.PropertiesHistory", r"inv_|stored_nodes|l2v_bij|nodecount|step_|gc_"), "OxiddModel.Bdd.Properties", "OxiddModel.Bdd.PropertiesC12", (B, r"_nf$|reduce"), (Z, r"_nf|nf'")], [("c03", ["bdd", "bcdd", "zbdd"])]),
  "C04": ([(GEN + "ObBcdd", r"dispatch"), "OxiddModel.Bdd.PropertiesC04", (B, r"quant|restrict|applyQuant|dispatch|subst|varset|cube_sem|qsem"), (Z, r"restrict")], [("c04", ["bdd", "bcdd", "zbdd"])]),
  "C05": (["OxiddModel.Bdd.PropertiesC05"], [("c05", ["bdd", "bcdd", "zbdd"])]),
- "C06": ([(GEN + "ObBdd", r"memo_"), (GEN + "ObMtbdd", r"memo_"), (GEN + "ObTdd", r"memo_"), "OxiddModel.Bdd.PropertiesC06", "OxiddModel.Bcdd.PropertiesC06"], [("c06", ["bdd", "bcdd", "zbdd"])]),
+ "C06": ([(GEN + "ObBdd", r"memo_"), (GEN + "ObMtbdd", r"memo_"), (GEN + "ObTdd", r"memo_"), "OxiddModel.Bdd.PropertiesC06", "OxiddModel.Bcdd.PropertiesC06", "OxiddModel.Zbdd.PropertiesC06"], [("c06", ["bdd", "bcdd", "zbdd"])]),
  "C07": (["OxiddModel.Bdd.PropertiesC07", ("OxiddModel.Locks.Properties", r"acquisitions_ranked|no_deadlock|no_cyclic_wait|try_never_blocks|holds_buckets|exclusive_|reentrant_|pool_takes")], [("c07", ["bdd", "bcdd", "zbdd"])]),
  "C08": (["OxiddModel.Reorder.Properties"], [("c08", ["bdd", "bcdd", "zbdd"])]),
- "C09": ([(Z, r"family|union|intsec|diff|subset|change|makeNode|bool_view|add_vars|taut|setops|const_nf")], [("c09", ["zbdd"])]),
+ "C09": ([(Z, r"family|union|intsec|diff|subset|change|makeNode|bool_view|add_vars|taut|setops|const_nf"), ("OxiddModel.Zbdd.PropertiesC06", r"zbdd_setop_spec|zbdd_subset_spec|zbdd_not_spec|zbdd_ite_spec|zbdd_restrict_spec|zbdd_taut|zbdd_restrict_sound_across_addvars|zbdd_terminal_refines")], [("c09", ["zbdd"])]),
  "C12": (["OxiddModel.Bdd.PropertiesC12", (B, r"satcount"), (Z, r"satcount")], [("c12", ["bdd", "bcdd", "zbdd"])]),
  "C13": (["OxiddModel.Bdd.PropertiesC13", (B, r"pick|choice|literal"), (Z, r"pick")], [("c13", ["bdd", "bcdd", "zbdd"])]),
  "C14": (["OxiddModel.Bdd.PropertiesC14"], [("c14", ["bdd", "bcdd", "zbdd"])]),
